@@ -2,7 +2,9 @@ package main
 
 import (
 	"bytes"
+	"errors"
 	"fmt"
+	"io"
 	"runtime"
 	"strings"
 	"sync"
@@ -44,6 +46,7 @@ type panicky struct{}
 func (panicky) String() string { panic("value that panics while being formatted") }
 
 type c09probe struct {
+	as         slog.Attrs // the caller's own slice, the same one for every emission of this probe
 	minW, tagW int
 	f          Format
 	name       string
@@ -75,6 +78,17 @@ func (w *c09writer) Write(p []byte) (int, error) {
 	return w.inner.Write(p)
 }
 
+// shortW accepts only a part of what it is handed, sometimes with io.ErrShortWrite, sometimes silently.
+type shortW struct{ r *gen.R }
+
+func (w shortW) Write(p []byte) (int, error) {
+	n := len(p) / 3
+	if w.r.Bool() {
+		return n, io.ErrShortWrite
+	}
+	return n, nil
+}
+
 // c09verbProbe is the single call site of the verb probes (the caller field is an input of the call).
 func c09verbProbe(lg *slog.Entry, lvl slog.Level, msg string, args []any) {
 	lg.LogAttrs(bg, lvl, msg, args...)
@@ -97,9 +111,12 @@ func c09hist(c *Ctx) {
 			slog.SetLevelOutputWidth(p.tagW)
 		}
 		lg := newRoot(p.name, p.f, w, slog.AlwaysLevel)
-		as := attrsOf(p.kvs)
-		if p.spy {
-			as = append(as, slog.NewAttr("zzspy", ptrSpy{&lastCtx}))
+		as := p.as
+		if as == nil {
+			as = attrsOf(p.kvs)
+			if p.spy {
+				as = append(as, slog.NewAttr("zzspy", ptrSpy{&lastCtx}))
+			}
 		}
 		evs := capture(log, func() { lg.WriteThru(bg, p.lvl, p.ts, thePC, p.msg, as) })
 		var b []byte
@@ -146,6 +163,18 @@ func c09hist(c *Ctx) {
 		}
 		flagsNow := slog.GetFlags()
 		p := genProbe(r)
+		if len(p.kvs) > 0 && r.P(40) {
+			// a key given twice (the later one wins), and ONE slice that the application passes again and again
+			dup := p.kvs[r.Intn(len(p.kvs))]
+			dup.Val = gen.V{Kind: "i64", I: 7, Go: int64(7)}
+			p.kvs = append(p.kvs, dup)
+			c.R.Add("probes_with_a_key_given_twice", 1)
+		}
+		if r.Bool() {
+			p.as = attrsOf(p.kvs)
+			p.as = append(p.as, slog.NewAttr("zzspy", ptrSpy{&lastCtx}))
+			c.R.Add("probes_reusing_one_attribute_slice", 1)
+		}
 		// reference: the probe formatted by a fresh context (pool flushed)
 		runtime.GC()
 		runtime.GC()
@@ -186,6 +215,31 @@ func c09hist(c *Ctx) {
 						}
 					}
 					c.R.Add("history_records_under_other_flags", 1)
+				}
+				if hr.P(10) {
+					// records whose attributes use the names the envelope uses, as the last (and only) keys
+					hl := newRoot("h", q.f, w, slog.AlwaysLevel)
+					k := gen.Pick(hr, []string{"time", "level", "msg", "caller", "logger", "error", "err"})
+					var v any = q.ts
+					if k != "time" && hr.Bool() {
+						v = gen.Pick(hr, []any{"x", 1, errors.New("e"), slog.InfoLevel})
+					}
+					capture(log, func() {
+						hl.WriteThru(bg, slog.InfoLevel, q.ts, thePC, "reserved key", slog.Attrs{slog.NewAttr("a", 1), slog.NewAttr(k, v)})
+					})
+					capture(log, func() { hl.Info("reserved key", k, v) })
+					c.R.Add("history_records_with_an_envelope_name_as_last_key", 1)
+				}
+				if hr.P(8) {
+					// a destination that takes only part of the payload (with or without reporting it)
+					hl := newRoot("short", q.f, shortW{r: hr}, slog.AlwaysLevel)
+					hl.SetErrorWriter(shortW{r: hr})
+					func() {
+						defer func() { _ = recover() }()
+						hl.Info("a record to a destination that takes part of it", "k", strings.Repeat("v", 300))
+						hl.Warn("and a warning", "k", 1)
+					}()
+					c.R.Add("history_records_to_a_short_writing_destination", 1)
 				}
 				if hr.P(8) {
 					// a record whose value panics while being formatted (recovered by the caller)
@@ -229,6 +283,16 @@ func c09hist(c *Ctx) {
 				if len(hdesc) < 20 {
 					hdesc = append(hdesc, fmt.Sprintf("%s:%v:%dattrs", q.f, q.lvl, len(q.kvs)))
 				}
+			}
+			if hr.P(15) {
+				// ... and the record right before the probe may be one that its destination took only in part
+				hl := newRoot("short", Format(hr.Intn(3)), shortW{r: hr}, slog.AlwaysLevel)
+				hl.SetErrorWriter(shortW{r: hr})
+				func() {
+					defer func() { _ = recover() }()
+					hl.Info("the last record before the probe, taken in part by its destination", "k", strings.Repeat("v", hr.Range(1, 400)))
+				}()
+				c.R.Add("probes_right_after_a_partly_written_record", 1)
 			}
 			slog.SetFlags(flagsNow)
 			return n
